@@ -1,14 +1,36 @@
 # C19 registry entry: see lib/registry.py for the field meanings
 PROP = {'rule': 'rapid-generated cases, one unit per package. '
-         'codecs: a bound object (pod or reservation) gets resource-spec, resource-status (cpu list with singles/ranges/gaps, 0-4 NUMA '
-         'entries with non-contiguous node ids, zero/milli/binary/huge amounts), device-allocated (1-3 types x 0-4 devices, ids, VFs, '
-         'templates) and reservation-allocated through the setters in a drawn order, optionally passes through the object JSON '
-         'encoding, and is read back; non-trivial = >=2 NUMA entries or >=2 devices. decodeIdempotent: generated annotation texts '
-         '(reordered/unknown keys, bare-number quantities, nulls, odd cpu lists, byte corruption); non-trivial = accepted text with '
-         'nested structure. distinct = FNV-64 fingerprint of the full case.',
+         'codecs (apis/extension): a bound object (pod or reservation) gets resource-spec, resource-status (cpu list with '
+         'singles/ranges/gaps up to id 4095, 0-4 NUMA entries with non-contiguous node ids, zero/milli/binary/huge amounts), '
+         'device-allocated (1-3 types x 0-4 devices, ids needing JSON escapes, VFs, templates) and reservation-allocated through the '
+         'setters in a drawn order, optionally passes through the object JSON encoding, and is read back; non-trivial = >=2 NUMA '
+         'entries or >=2 devices. decodeIdempotent: generated annotation texts (reordered/unknown keys, bare-number quantities, '
+         'nulls, odd cpu lists, byte corruption); non-trivial = accepted text with nested structure. '
+         'numa / device / reservation / quota: rapid state machines. Every schedule step runs the real plugin path (PreFilter, '
+         'Filter with the real NUMA topology manager, Reserve, then PreBind / PreBindReservation on a copy, or Unreserve on a drawn '
+         'bind failure) for pods and for Reservation objects; other steps are delete (plain or tombstone), finish (phase '
+         'Succeeded/Failed, object stays), touch (update carrying the same allocation), optional delivery of the own bind event to '
+         'the live handlers. After EVERY step (each prefix is a crash point) the persisted objects are replayed into a fresh '
+         'cache through the real informer handlers in a drawn order with up to 3 duplicate adds / no-op updates, and, in 1/7 of the '
+         'cases, with pod events before the node topology / Reservation events; the fresh ledger must equal the live one and the '
+         'harness model of what Reserve handed to the still-active objects. non-trivial = a crash point with >=2 holders (sharing '
+         'a device / reservation / quota for device, reservation, quota) and at least one duplicate event. '
+         'numaPersistDecode: arbitrary PodAllocation values through preBindObject and the event handler. '
+         'distinct = FNV-64 fingerprint of the full case.',
  'assumptions': ['strings carried in annotations (device ids, bus ids, reservation names/uids) are valid UTF-8, as everything that '
                  'came through the API server is',
-                 'CPU ids are below 4096 (cpuset.Parse rejects ranges ending above that)'],
+                 'CPU ids are below 4096 (cpuset.Parse rejects ranges ending above that)',
+                 'crash points are between scheduling cycles: a pod that is reserved but not yet bound is not in flight when the '
+                 'scheduler restarts (its assumption is by design not persisted)',
+                 'the fresh scheduler is given the same node inventory as the live one (topology report, Device object, quota '
+                 'objects); no CPU amplification ratio; one node for numa/device',
+                 'per-CPU exclusive marks are compared only with the default sharing limit 1 (with 2 the live mark is '
+                 'last-writer-wins); the lazily refreshed matchableOnNode/allocatedOnNode indexes of the reservation cache and the '
+                 'unread Node field of NodeAllocation.allocatedResources entries are not compared',
+                 'reservations are nominated by the harness among those the live cache reports matchable (the nominator is C05); '
+                 'quotas are static during a quota history (C01 owns quota accounting)',
+                 'Go map iteration inside koordinator (hint merging, device scoring ties) is not controlled; it can change which '
+                 'allocation a cycle picks, not the verdict'],
  'units': [{'name': 'codecs',
             'pkg': 'apis/extension',
             'files': ['C19/c19_codec_test.go'],
@@ -17,7 +39,8 @@ PROP = {'rule': 'rapid-generated cases, one unit per package. '
            {'name': 'numa',
             'pkg': 'pkg/scheduler/plugins/nodenumaresource',
             'files': ['C19/c19_numa_test.go'],
-            'tests': [{'run': 'TestVerifC19NUMAReplay', 'quick': 400, 'thorough': 2500, 'steps': 20}]},
+            'tests': [{'run': 'TestVerifC19NUMAReplay', 'quick': 400, 'thorough': 2500, 'steps': 20},
+                      {'run': 'TestVerifC19NUMAPersistDecode', 'quick': 2000, 'thorough': 15000}]},
            {'name': 'device',
             'pkg': 'pkg/scheduler/plugins/deviceshare',
             'files': ['C19/c19_device_test.go'],
@@ -25,8 +48,25 @@ PROP = {'rule': 'rapid-generated cases, one unit per package. '
            {'name': 'reservation',
             'pkg': 'pkg/scheduler/plugins/reservation',
             'files': ['C19/c19_reservation_test.go'],
-            'tests': [{'run': 'TestVerifC19ReservationReplay', 'quick': 300, 'thorough': 2000, 'steps': 25}]}],
+            'tests': [{'run': 'TestVerifC19ReservationReplay', 'quick': 300, 'thorough': 2000, 'steps': 25}]},
+           {'name': 'quota',
+            'pkg': 'pkg/scheduler/plugins/elasticquota/core',
+            'files': ['C19/c19_quota_test.go'],
+            'tests': [{'run': 'TestVerifC19QuotaReplay', 'quick': 300, 'thorough': 2000, 'steps': 25}]}],
  'manifest': {'technique': 'property-based testing (rapid): round-trip and decode-idempotence of the bind-time annotation codecs; '
-                           'differential replay of generated allocation histories into fresh plugin caches',
-              'text': 'TODO',
-              'note': 'TODO'}}
+                           'model-based state machines whose every prefix is replayed into a fresh cache (differential live vs fresh '
+                           'plus an explicit reference model)',
+              'text': 'Generated-input search in five packages. Codecs: whatever the setters write on a pod/reservation at bind time '
+                      '(cpu set string, per-NUMA amounts, device allocations with VFs/templates/ids, reservation assignment) is read '
+                      'back semantically equal, also after the object JSON encoding, and decode(encode(decode(s))) = decode(s) on '
+                      'generated annotation texts. Replay (nodenumaresource, deviceshare, reservation, elasticquota/core): allocation '
+                      'histories are driven through the real plugin path (PreFilter/Filter/Reserve/PreBind, Unreserve, informer '
+                      'handlers for delete/finish/update); after every step the objects the API server would hold are fed, in a drawn '
+                      'delivery order with duplicate adds and no-op updates, through the real informer handlers into a fresh cache, '
+                      'whose ledger (pods, per-CPU refcount/exclusive mark, per-NUMA amounts, GetAvailableCPUs; device used/free per '
+                      'minor, holders, taken VFs; reservation assigned pods/allocated/available; quota used/request) must equal the '
+                      'live one and the harness model of what was handed out. Exploration, not proof: absence of violations over the '
+                      'sampled histories.',
+              'note': 'crash points between scheduling cycles only; same node inventory for live and fresh; sharing limit 1 for the '
+                      "per-CPU exclusive mark; lazily refreshed reservation node indexes not compared; rapid's PRNG and shrinker; Go "
+                      'map iteration inside koordinator is not controlled'}}
